@@ -13,11 +13,11 @@ PID = "C19"
 PROPS_FILE = "Props/C19.v"
 GEN_FILES = ["Gen/C19_len.v", "Gen/C03_len.v"]
 MODEL_FILES = ["Model/C19_select.v"]
-ALLOWED_AXIOMS = [
-    r"ClassicalDedekindReals\.sig_forall_dec",
-    r"ClassicalDedekindReals\.sig_not_dec",
-    r"FunctionalExtensionality\.functional_extensionality_dep",
-    r"Classical_Prop\.classic",
+ALLOWED_AXIOMS = [        # Print Assumptions prints the short path, coqchk the full one
+    r"(Coq\.Reals\.)?ClassicalDedekindReals\.sig_forall_dec",
+    r"(Coq\.Reals\.)?ClassicalDedekindReals\.sig_not_dec",
+    r"(Coq\.Logic\.)?FunctionalExtensionality\.functional_extensionality_dep",
+    r"(Coq\.Logic\.)?Classical_Prop\.classic",
 ]
 CASE_HEADER = ("From Coq Require Import ZArith QArith.\n"
                "From LK Require Import Lib.QLib Lib.PyInt Lib.TopN Gen.C03_len Gen.C19_len Model.C19_select.\nOpen Scope Z_scope.")
@@ -233,6 +233,8 @@ def harness_weights(case, valid_scores):
 
 def run_impl(case):
     _setup()
+    if case.get("freq"):
+        return _freq_counts(case)
     comp, gens = make_component(case)
     il = make_items(case)
     obs = {"error": None}
@@ -306,7 +308,7 @@ def c_pyv(n):
 
 
 def coq_term(case, obs):
-    if obs["error"] or not case["scores"]:
+    if obs["error"] or not case["scores"] or case.get("freq"):
         return None
     items = clist([[r[0], f32(r[1]), r[2]] for r in case["items"]], c_row)
     if any(r[1] is None or r[2] is None for r in obs["out"]):
@@ -367,6 +369,8 @@ def want_lengths(case, n_elig):
 
 def oracle(case, obs):
     v = []
+    if case.get("freq"):
+        return _freq_oracle(case, obs)
     if case["cfg_n"] == 0:
         return v
     if not case["scores"]:
@@ -451,62 +455,83 @@ def shrink(case, fails):
 # ---------------------------------------------------------------------------------------------
 
 
-def _freq_table(name, case, draws, expect_first, expect_incl, rep):
+def _freq_counts(case):
+    """run_impl of a frequency case: first-position and inclusion counts over many calls of one component."""
+    f = case["freq"]
     comp, _ = make_component(case, record=False)
     il = make_items(case)
     ids = [r[0] for r in case["items"]]
     first = {i: 0 for i in ids}
     incl = {i: 0 for i in ids}
-    for _ in range(draws):
-        out = comp(items=il, query=None, n=case["run_n"])
-        o = out.ids().tolist()
+    for _ in range(f["draws"]):
+        o = comp(items=il, query=None, n=case["run_n"]).ids().tolist()
         if o:
             first[o[0]] += 1
         for i in o:
             incl[i] += 1
+    return {"error": None, "first": [[i, first[i]] for i in ids], "included": [[i, incl[i]] for i in ids]}
+
+
+def _freq_rows(case, obs):
+    f = case["freq"]
     rows = []
-    worst = 0.0
-    for what, got, exp in (("first", first, expect_first), ("included", incl, expect_incl)):
+    for what, exp in (("first", f["expect_first"]), ("included", f["expect_included"])):
         if exp is None:
             continue
-        for i in ids:
-            p = exp[i]
-            sd = math.sqrt(draws * p * (1 - p))
-            z = 0.0 if sd == 0 else abs(got[i] - draws * p) / sd
-            if sd == 0 and got[i] != round(draws * p):
-                z = float("inf")
-            worst = max(worst, z)
-            rows.append({"item": i, "what": what, "count": got[i], "expected": round(draws * p, 1), "z": round(z, 2)})
-            if z > 6:
-                rep.violation(f"frequency:{name}", f"{name}: item {i} {what} {got[i]} times in {draws} draws, expected {draws * p:.1f} (z = {z:.1f} > 6)",
-                              {"case": case, "draws": draws, "table": name})
-    return {"table": name, "draws": draws, "seed": case["rng"]["seed"], "max_z": round(worst, 2), "rows": rows}
+        for (i, got), p in zip(obs[what], exp):
+            sd = math.sqrt(f["draws"] * p * (1 - p))
+            z = abs(got - f["draws"] * p) / sd if sd > 0 else (0.0 if got == round(f["draws"] * p) else 1e9)
+            rows.append({"item": i, "what": what, "count": got, "expected": round(f["draws"] * p, 1), "z": round(z, 2)})
+    return rows
+
+
+def _freq_oracle(case, obs):
+    f = case["freq"]
+    return [(f"frequency:{f['name']}", f"{f['name']}: item {r['item']} {r['what']} {r['count']} times in {f['draws']} draws, expected {r['expected']} (z = {r['z']} > 6)")
+            for r in _freq_rows(case, obs) if r["z"] > 6][:1]
+
+
+_freq_done = False
+
+
+def search(rng, rep):
+    """called when an obligation broke and no structural input failed: the frequency tables are the remaining search"""
+    before = len(rep.violations)
+    extra(rep, rep.tier, rng)
+    return len(rep.violations) > before
 
 
 def extra(rep, tier, rng):
+    global _freq_done
+    if _freq_done:
+        return
+    _freq_done = True
     _setup()
     draws = 20000 if tier == "quick" else 200000
     tables = []
     seed = lambda: rng.below(2 ** 31)  # noqa: E731
     base = {"cfg_n": None, "rng": {"seed": 0, "user": False}, "user": None, "scores": True, "style": "freq", "scale": "1/1", "transform": None}
+    cases = []
 
     # uniform selection: 2 of 6, every item equally likely (inclusion n/k, first 1/k)
     items = [[i, fjson(Fraction(i, 2)), 0] for i in range(1, 7)]
-    c = {**base, "comp": "random", "run_n": 2, "items": items, "rng": {"seed": seed(), "user": False}}
-    tables.append(_freq_table("uniform 2 of 6", c, draws, {i: 1 / 6 for i in range(1, 7)}, {i: 2 / 6 for i in range(1, 7)}, rep))
+    cases.append({**base, "comp": "random", "run_n": 2, "items": items, "rng": {"seed": seed(), "user": False},
+                  "freq": {"name": "uniform 2 of 6", "draws": draws, "expect_first": [1 / 6] * 6, "expect_included": [2 / 6] * 6}})
 
     scores = [Fraction(1, 2), Fraction(1), Fraction(2), Fraction(4)]
     items = [[10 + k, fjson(s), 0] for k, s in enumerate(scores)]
-    ids = [r[0] for r in items]
-
-    def probs(case):
-        w, tiny = harness_weights(case, [float(s) for s in scores])
-        r = [max(x, tiny) for x in w]
-        return {i: x / sum(r) for i, x in zip(ids, r)}
-
     for name, comp, tr, scale in (("raw weights", "stochastic", None, "1/1"), ("linear", "stochastic", "linear", "1/1"),
                                   ("softmax scale 1/2", "stochastic", "softmax", "1/2"), ("SoftmaxRanker", "softmax", None, "1/1")):
         c = {**base, "comp": comp, "transform": tr, "scale": scale, "run_n": 2, "items": items, "rng": {"seed": seed(), "user": False}}
-        tables.append(_freq_table(name, c, draws, probs(c), None, rep))
+        w, tiny = harness_weights(c, [float(x) for x in scores])
+        r = [max(x, tiny) for x in w]
+        c["freq"] = {"name": name, "draws": draws, "expect_first": [x / sum(r) for x in r], "expect_included": None}
+        cases.append(c)
+    for c in cases:
+        obs = run_impl(c)
+        rows = _freq_rows(c, obs)
+        tables.append({"table": c["freq"]["name"], "draws": draws, "seed": c["rng"]["seed"], "max_z": max(r["z"] for r in rows), "rows": rows})
+        for key, what in oracle(c, obs):
+            rep.violation(key, what, {"case": c, "observation": obs})
     rep.coverage["frequency_tables"] = tables
     rep.coverage["tolerances"] = {"weights": "2^-40 relative (float64 harness re-implementation vs rational model)", "frequencies": "6 sigma binomial band"}
